@@ -78,6 +78,7 @@ pub(crate) mod verif_iso {
                 assert!(rule.is_none() && snap.is_none());
             }
             assert!(node.writes() == 0);
+            std::mem::forget(ctx);
             kani::cover!(fits0 && !fits1);
             kani::cover!(passed && cur as u64 + batch as u64 == r0.threshold as u64); // exactly at the cap is admitted
         },
@@ -108,6 +109,7 @@ pub(crate) mod verif_iso {
                 let want: Arc<dyn SentinelRule> = r0.clone();
                 assert!(Arc::ptr_eq(&e.triggered_rule().unwrap(), &want));
             }
+            std::mem::forget(ctx);
             kani::cover!(fits);
             kani::cover!(!fits);
         },
@@ -124,6 +126,7 @@ pub(crate) mod verif_iso {
             let r = AdaptiveSlot {}.check(&mut ctx);
             assert!(r.is_pass() && ctx.result().is_pass());
             assert!(node.reads.load(SeqCst) == 0);
+            std::mem::forget(ctx);
             kani::cover!(true);
         },
         3
